@@ -203,11 +203,17 @@ func c19run(c c19case, dir, shipped string) (r c19res) {
 		if rm != nil {
 			o.Prints = c19prints(rm, logger)
 			o.Expiry = c19guard(func() { rm.RemoveOldRegistrations() })
-			c19decisions(rm.RegConfig, &o, c.NProbe)
-			for gen := range rm.PhantomSelector.Networks {
-				o.Gens = append(o.Gens, int(gen))
+			if g := c19guard(func() { c19decisions(rm.RegConfig, &o, c.NProbe) }); g != "ok" {
+				o.Prints["decisions"] = g
 			}
-			sort.Ints(o.Gens)
+			if rm.PhantomSelector == nil {
+				o.Gens = []int{-1} // no selector at all
+			} else {
+				for gen := range rm.PhantomSelector.Networks {
+					o.Gens = append(o.Gens, int(gen))
+				}
+				sort.Ints(o.Gens)
+			}
 		} else if o.Parse == "ok" && conf.RegConfig != nil {
 			// policy of the parsed configuration itself (no manager was built)
 			c19decisions(conf.RegConfig, &o, c.NProbe)
